@@ -245,13 +245,14 @@ MUTANTS: dict[str, list[tuple]] = {
          "item in bin\n", "", True,
          "bin window of encoding 2 not extended: later items ignore "
          "earlier ones"),
-        ("enc2_keep_bin_starts", BP + "encodings/ibl_encoding_2.py",
-         "    bin_starts[0] = 0\n    bin_ends[0] = 0\n",
-         "    if bin_ends[0] < 0 or bin_ends[0] > len(x):\n"
-         "        bin_starts[0] = 0\n        bin_ends[0] = 0\n"
-         "    bin_ends[0] = min(bin_ends[0], 1)\n", True,
-         "history dependence: window of bin 1 survives from the previous "
-         "decode call on the same encoder object"),
+        ("enc2_no_reset_bin_end", BP + "encodings/ibl_encoding_2.py",
+         ["    bin_starts[0] = 0\n    bin_ends[0] = 0\n",
+          "        self.__bin_ends: Final[np.ndarray] = np.empty("],
+         ["    bin_starts[0] = 0\n",
+          "        self.__bin_ends: Final[np.ndarray] = np.zeros("], True,
+         "history dependence: the row window of bin 1 survives from the "
+         "previous decode call on the same encoder object (stale rows of "
+         "the destination are treated as placed boxes)"),
         ("enc1_bin_start_lag", BP + "encodings/ibl_encoding_1.py",
          "            bin_start = i  # set the starting index of the bin\n",
          "            bin_start = max(0, i - 1)  # set the starting index\n",
@@ -281,9 +282,14 @@ def run_one(pid: str, m: tuple) -> dict:
         path = os.path.join(tmp, rel)
         with open(path, encoding="utf-8") as f:
             src = f.read()
-        if src.count(old) != 1:
-            raise SystemExit(f"{name}: pattern occurs {src.count(old)} times")
-        mutated = src.replace(old, new)
+        olds = old if isinstance(old, list) else [old]
+        news = new if isinstance(new, list) else [new]
+        mutated = src
+        for o, n in zip(olds, news):
+            if mutated.count(o) != 1:
+                raise SystemExit(
+                    f"{name}: pattern occurs {mutated.count(o)} times")
+            mutated = mutated.replace(o, n)
         with open(path, "w", encoding="utf-8") as f:
             f.write(mutated)
         patch = f"mutation/patches/{pid}_{name}.diff"
